@@ -21,7 +21,11 @@ IsEvent(e) == l <= Len(TraceLog[tid]) /\ Ev.ev = e /\ l' = l + 1 /\ tid' = tid
 
 TrInit == /\ tid \in 1 .. Len(TraceLog) /\ l = 1 /\ Init
 
-TrHit0   == IsEvent("hit")   /\ Ev.depth = 0 /\ stack = << >> /\ Ev.key \in data /\ Request(Ev.key)
+TrHit0   == IsEvent("hit")   /\ Ev.depth = 0 /\ stack = << >> /\ Ev.key \in data      \* also for keys the user defined himself
+            /\ age' = Touch(age, Ev.key, count) /\ handed' = handed \cup {obj[Ev.key]}
+            /\ nreq' = nreq + 1 /\ hist' = hist /\ status' = "ok"
+            /\ UNCHANGED <<data, count, frozen, stack, obj, dirty, nset>>
+TrSet    == IsEvent("set") /\ stack = << >> /\ UserSet(Ev.key)
 TrEnter0 == IsEvent("enter") /\ Ev.depth = 0 /\ stack = << >> /\ Ev.key \notin data /\ Request(Ev.key)
 TrHit    == IsEvent("hit")   /\ Ev.depth > 0 /\ Len(stack) = Ev.depth
             /\ Node(Top).op = "r" /\ Node(Top).key = Ev.key /\ Ev.key \in data /\ StepRead
@@ -39,12 +43,12 @@ TrExitH  == IsEvent("exit")  /\ Len(stack) = Ev.depth + 1 /\ Top.key = Ev.key /\
             /\ ReturnHelper
 (* an exception unwinds everything; every frame on the way logs one raise event *)
 TrRaise  == IsEvent("raise") /\ stack' = << >> /\ status' = Ev.exc
-            /\ UNCHANGED <<data, age, count, frozen, nreq, hist, obj, dirty, handed>>
+            /\ UNCHANGED <<data, age, count, frozen, nreq, hist, obj, dirty, handed, nset>>
 TrFreeze == IsEvent("freeze") /\ stack = << >>
             /\ frozen' = frozen \cup data /\ ToSet(Ev.frozen) = data
-            /\ UNCHANGED <<data, age, count, stack, nreq, hist, obj, dirty, handed, status>>
+            /\ UNCHANGED <<data, age, count, stack, nreq, hist, obj, dirty, handed, status, nset>>
 
-TrNext == TrHit0 \/ TrEnter0 \/ TrHit \/ TrEnter \/ TrTest \/ TrDread \/ TrExit \/ TrExitH \/ TrRaise \/ TrFreeze
+TrNext == TrSet \/ TrHit0 \/ TrEnter0 \/ TrHit \/ TrEnter \/ TrTest \/ TrDread \/ TrExit \/ TrExitH \/ TrRaise \/ TrFreeze
 TrSpec == TrInit /\ [][TrNext]_tvars
 
 (* progress registers: 100 + tid holds the furthest position matched for trace tid *)
